@@ -21,7 +21,7 @@ META = {
     "(and the whole output by pysam.VariantFile): declared keys, Number=1/A/R/G cardinalities for the record's allele count and the sample's ploidy, GT shape/sort, "
     "REF = reference[POS..END], ALT vs SNVPOS and the input variants, AC/AN/UAN/NS/DP/RCOUNT/ACP/AFP/AOP/AOPSUM recomputed from the sample data, every number = "
     "internal value rounded to 3 decimals; non-trivial = record with >= 1 ALT or a special shape (REFMASKED, NOA/AF0, no SNV, no reads)",
-    "bound": {"quick": "8 program/data configurations x 258 report subsets (all 64 FORMAT x {no,all INFO} + all 64 INFO x {no,all FORMAT})",
+    "bound": {"quick": "9 program/data configurations x 258 report subsets (all 64 FORMAT x {no,all INFO} + all 64 INFO x {no,all FORMAT})",
               "thorough": "all 4096 report subsets"},
     "assumptions": ["sampler fits are memoised on (class, parameters, reads, counts) within a process", "printed numbers: at most 3 decimals and |printed - internal| <= 0.0005"],
     "trusted_base": ["vmc/vcfparse.py", "pysam.VariantFile (second opinion only)"],
@@ -66,7 +66,7 @@ def hand_vcf(D):
     return synth.bgzip_tabix(p)
 
 
-CONFIGS = ["assemble", "assemble-thr0.9", "call", "call-exact", "call-pedigree", "call-hand", "call-exact-hand", "call-pedigree-hand"]
+CONFIGS = ["assemble", "assemble-thr0.9", "assemble-thr1.0", "call", "call-exact", "call-pedigree", "call-hand", "call-exact-hand", "call-pedigree-hand"]
 
 
 def subsets(tier):
@@ -151,9 +151,9 @@ def job_run(job):
     patches = [(m_asm, "DenovoMCMC", memoised(m_asm.DenovoMCMC)), (m_call, "CallingMCMC", memoised(m_call.CallingMCMC)),
                (m_ped, "PedigreeCallingMCMC", memoised(m_ped.PedigreeCallingMCMC)), (bc.LocusAssemblyData, "format_vcf_record", capture)]
     with patched(*patches):
-        prog = cfg.replace("-hand", "").replace("-thr0.9", "")
+        prog = cfg.replace("-hand", "").replace("-thr0.9", "").replace("-thr1.0", "")
         if prog == "assemble":
-            base_extra = ["--haplotype-posterior-threshold", "0.9"] if cfg.endswith("thr0.9") else []
+            base_extra = ["--haplotype-posterior-threshold", cfg.split("-thr")[1]] if "-thr" in cfg else []
             hv = None
         elif cfg.endswith("-hand"):
             hv = hand_vcf(D)
